@@ -86,6 +86,117 @@ fn gen_timed(seed: u64, r: &mut Rng) -> Case {
     case
 }
 
+/// The C19 generator; `force_pop` pins the population (used by C01 for its dynamic-macro
+/// histories).
+pub fn gen_c19(seed: u64, force_pop: Option<&'static str>) -> Case {
+    let mut r = Rng::new(seed);
+    let pop0 = *r.pick(&["identity", "identity", "remap", "selfplay", "limit"]);
+    let pop = force_pop.unwrap_or(pop0);
+
+    let behaviour = *r.pick(&["constant", "recorded"]);
+    let maxp = if pop == "limit" { r.range(1, 3) } else { 128 };
+    let trunc = r.range(0, 4);
+    let layer = if pop == "remap" {
+        // time-insensitive remapping incl. a held layer
+        "x C-y (layer-while-held l1) (multi z w)"
+    } else {
+        "a b c d"
+    };
+    if r.chance(160) && force_pop.is_none() {
+        return gen_timed(seed, &mut r);
+    }
+    let mut case = Case { prop: "C19".into(), seed, ..Default::default() };
+    case.cfg = format!(
+        "(defcfg dynamic-macro-max-presses {maxp} dynamic-macro-replay-delay-behaviour {behaviour})\n(defsrc a b c d r q s t p o)\n(deflayer l0 {layer} (dynamic-macro-record 1) (dynamic-macro-record 2) dynamic-macro-record-stop (dynamic-macro-record-stop-truncate {trunc}) (dynamic-macro-play 1) (dynamic-macro-play 2))\n(deflayer l1 1 2 _ 3 _ _ _ _ _ _)\n"
+    );
+    let code = |n: &str| oscode_of(n);
+    let tap = |ops: &mut Vec<Op>, k: u16, r: &mut Rng| {
+        ops.push(Op::Press(k));
+        ops.push(Op::Gap(r.range(3, 6) as u32));
+        ops.push(Op::Release(k));
+        ops.push(Op::Gap(r.range(8, 14) as u32));
+    };
+    let mut ops: Vec<Op> = vec![];
+    let mut down: Vec<u16> = vec![];
+    let typed: Vec<u16> = TYPED.iter().map(|k| code(k)).collect();
+    // optionally a key is already held when recording starts
+    if r.chance(300) {
+        let k = *r.pick(&typed);
+        down.push(k);
+        ops.push(Op::Press(k));
+        ops.push(Op::Gap(10));
+    }
+    let type_some = |ops: &mut Vec<Op>, down: &mut Vec<u16>, r: &mut Rng, n: u64| {
+        for _ in 0..n {
+            let can: Vec<u16> = typed.iter().copied().filter(|k| !down.contains(k)).collect();
+            if !can.is_empty() && (down.is_empty() || r.chance(550)) {
+                let k = *r.pick(&can);
+                down.push(k);
+                ops.push(Op::Press(k));
+            } else {
+                let i = r.below(down.len() as u64) as usize;
+                ops.push(Op::Release(down.remove(i)));
+            }
+            ops.push(Op::Gap(*r.pick(&[3u32, 4, 7, 12, 30])));
+        }
+    };
+    // optionally record macro 2 first (for nested play)
+    let nested = pop == "identity" && r.chance(300);
+    if nested {
+        tap(&mut ops, code("q"), &mut r);
+        type_some(&mut ops, &mut down, &mut r, 3);
+        if r.chance(400) {
+            // macro 2's own play key (or macro 1's) tapped while macro 2 is being recorded:
+            // nothing to play yet, but the tap is part of the recording, so a later nested
+            // replay of macro 2 meets its own play key and must refuse it
+            let k = if r.chance(700) { "o" } else { "p" };
+            tap(&mut ops, code(k), &mut r);
+            type_some(&mut ops, &mut down, &mut r, 2);
+        }
+        // release everything before stopping so that macro 2 is self-contained
+        for k in down.drain(..) {
+            ops.push(Op::Release(k));
+            ops.push(Op::Gap(4));
+        }
+        tap(&mut ops, code("s"), &mut r);
+    }
+    tap(&mut ops, code("r"), &mut r);
+    let n = if pop == "limit" { r.range(6, 14) } else { r.range(0, 9) };
+    type_some(&mut ops, &mut down, &mut r, n);
+    if nested && r.chance(700) {
+        tap(&mut ops, code("o"), &mut r); // play macro 2 while recording macro 1
+        ops.push(Op::Gap(120));
+    }
+    if pop == "selfplay" {
+        tap(&mut ops, code("p"), &mut r); // play macro 1 while recording macro 1
+        type_some(&mut ops, &mut down, &mut r, 2);
+    }
+    // stop
+    let stop = if pop == "limit" { "s" } else { *r.pick(&["s", "s", "t", "r", "q"]) };
+    case.set("stop", stop);
+    case.set("trunc", trunc);
+    tap(&mut ops, code(stop), &mut r);
+    if stop == "q" {
+        // recording of macro 2 started: stop it
+        tap(&mut ops, code("s"), &mut r);
+    }
+    for k in down.drain(..) {
+        ops.push(Op::Release(k));
+        ops.push(Op::Gap(4));
+    }
+    ops.push(Op::Gap(60));
+    case.set("replay_op_idx", ops.len());
+    tap(&mut ops, code("p"), &mut r);
+    ops.push(Op::Gap(1500));
+    case.ops = ops;
+    case.set("pop", pop);
+    case.set("behaviour", behaviour);
+    case.set("maxp", maxp);
+    case.set("min_cfg", 0);
+    case.set("min_ops", 0);
+    case
+}
+
 impl Prop for C19 {
     fn id(&self) -> &'static str {
         "C19"
@@ -100,102 +211,7 @@ impl Prop for C19 {
         }
     }
     fn gen(&self, seed: u64, _tier: Tier) -> Case {
-        let mut r = Rng::new(seed);
-        let pop = *r.pick(&["identity", "identity", "remap", "selfplay", "limit"]);
-        let behaviour = *r.pick(&["constant", "recorded"]);
-        let maxp = if pop == "limit" { r.range(1, 3) } else { 128 };
-        let trunc = r.range(0, 4);
-        let layer = if pop == "remap" {
-            // time-insensitive remapping incl. a held layer
-            "x C-y (layer-while-held l1) (multi z w)"
-        } else {
-            "a b c d"
-        };
-        if r.chance(160) {
-            return gen_timed(seed, &mut r);
-        }
-        let mut case = Case { prop: "C19".into(), seed, ..Default::default() };
-        case.cfg = format!(
-            "(defcfg dynamic-macro-max-presses {maxp} dynamic-macro-replay-delay-behaviour {behaviour})\n(defsrc a b c d r q s t p o)\n(deflayer l0 {layer} (dynamic-macro-record 1) (dynamic-macro-record 2) dynamic-macro-record-stop (dynamic-macro-record-stop-truncate {trunc}) (dynamic-macro-play 1) (dynamic-macro-play 2))\n(deflayer l1 1 2 _ 3 _ _ _ _ _ _)\n"
-        );
-        let code = |n: &str| oscode_of(n);
-        let tap = |ops: &mut Vec<Op>, k: u16, r: &mut Rng| {
-            ops.push(Op::Press(k));
-            ops.push(Op::Gap(r.range(3, 6) as u32));
-            ops.push(Op::Release(k));
-            ops.push(Op::Gap(r.range(8, 14) as u32));
-        };
-        let mut ops: Vec<Op> = vec![];
-        let mut down: Vec<u16> = vec![];
-        let typed: Vec<u16> = TYPED.iter().map(|k| code(k)).collect();
-        // optionally a key is already held when recording starts
-        if r.chance(300) {
-            let k = *r.pick(&typed);
-            down.push(k);
-            ops.push(Op::Press(k));
-            ops.push(Op::Gap(10));
-        }
-        let type_some = |ops: &mut Vec<Op>, down: &mut Vec<u16>, r: &mut Rng, n: u64| {
-            for _ in 0..n {
-                let can: Vec<u16> = typed.iter().copied().filter(|k| !down.contains(k)).collect();
-                if !can.is_empty() && (down.is_empty() || r.chance(550)) {
-                    let k = *r.pick(&can);
-                    down.push(k);
-                    ops.push(Op::Press(k));
-                } else {
-                    let i = r.below(down.len() as u64) as usize;
-                    ops.push(Op::Release(down.remove(i)));
-                }
-                ops.push(Op::Gap(*r.pick(&[3u32, 4, 7, 12, 30])));
-            }
-        };
-        // optionally record macro 2 first (for nested play)
-        let nested = pop == "identity" && r.chance(300);
-        if nested {
-            tap(&mut ops, code("q"), &mut r);
-            type_some(&mut ops, &mut down, &mut r, 3);
-            // release everything before stopping so that macro 2 is self-contained
-            for k in down.drain(..) {
-                ops.push(Op::Release(k));
-                ops.push(Op::Gap(4));
-            }
-            tap(&mut ops, code("s"), &mut r);
-        }
-        tap(&mut ops, code("r"), &mut r);
-        let n = if pop == "limit" { r.range(6, 14) } else { r.range(0, 9) };
-        type_some(&mut ops, &mut down, &mut r, n);
-        if nested && r.chance(700) {
-            tap(&mut ops, code("o"), &mut r); // play macro 2 while recording macro 1
-            ops.push(Op::Gap(120));
-        }
-        if pop == "selfplay" {
-            tap(&mut ops, code("p"), &mut r); // play macro 1 while recording macro 1
-            type_some(&mut ops, &mut down, &mut r, 2);
-        }
-        // stop
-        let stop = if pop == "limit" { "s" } else { *r.pick(&["s", "s", "t", "r", "q"]) };
-        case.set("stop", stop);
-        case.set("trunc", trunc);
-        tap(&mut ops, code(stop), &mut r);
-        if stop == "q" {
-            // recording of macro 2 started: stop it
-            tap(&mut ops, code("s"), &mut r);
-        }
-        for k in down.drain(..) {
-            ops.push(Op::Release(k));
-            ops.push(Op::Gap(4));
-        }
-        ops.push(Op::Gap(60));
-        case.set("replay_op_idx", ops.len());
-        tap(&mut ops, code("p"), &mut r);
-        ops.push(Op::Gap(1500));
-        case.ops = ops;
-        case.set("pop", pop);
-        case.set("behaviour", behaviour);
-        case.set("maxp", maxp);
-        case.set("min_cfg", 0);
-        case.set("min_ops", 0);
-        case
+        gen_c19(seed, None)
     }
 
     fn check(&self, case: &Case, want_sample: bool) -> RunOut {
